@@ -294,7 +294,7 @@ Proof. vm_compute. reflexivity. Qed.
    C01_query_job, whose reference semantics gives FThrow for an empty First.) *)
 From FV Require Import Model.FragTranslate Proofs.FragProofs.
 Theorem C04_fragment_first_faults_iff_empty :
-  forall (bk : FragTranslate.backend) (name : string) (cr : collref) (ps : list pred) (body : pa) (line : string)
+  forall (bk : FragTranslate.backend) (name : string) (cr : collref) (ps : guard) (body : pa) (line : string)
          (n0 : nat) (ev : event) (ms : frame) (f : value -> bool) (g : value -> value) (l : list value),
   let r := [(name, ColFirst cr ps body line)] in
   base_ok (c_base cr) = true -> members_init r (n0 + row_size r) 0 ms ->
@@ -306,3 +306,43 @@ Theorem C04_fragment_first_faults_iff_empty :
   end.
 Proof. exact frag_first_faults_iff_empty. Qed.
 Print Assumptions C04_fragment_first_faults_iff_empty.
+
+(* and / or in a Where of the fragment (lowered through a bool variable declared in the loop block, each further
+   operand assigned inside `if (v)` / `if (!v)`): the guard of the reference semantics, which C01_query_job proves
+   the emitted job implements for every query, is as lazy as Python's - the operands after the deciding one are
+   not evaluated, whatever they would do - and with total operands it is all(...) / any(...). *)
+Theorem C04_fragment_and_lazy :
+  forall (ev : event) (v : value) (p : pred) (ps : list pred),
+  dpred ev v p = ROk false -> gpasses ev v (GBool true p ps) = ROk false.
+Proof. exact and_guard_lazy. Qed.
+Print Assumptions C04_fragment_and_lazy.
+Theorem C04_fragment_or_lazy :
+  forall (ev : event) (v : value) (p : pred) (ps : list pred),
+  dpred ev v p = ROk true -> gpasses ev v (GBool false p ps) = ROk true.
+Proof. exact or_guard_lazy. Qed.
+Print Assumptions C04_fragment_or_lazy.
+Theorem C04_fragment_bool_guard_is_all_any :
+  forall (ev : event) (v : value) (is_and : bool) (f : pred -> bool) (p : pred) (ps : list pred),
+  (forall q, In q (p :: ps) -> dpred ev v q = ROk (f q)) ->
+  gpasses ev v (GBool is_and p ps) = ROk (if is_and then forallb f (p :: ps) else existsb f (p :: ps)).
+Proof. exact bool_guard_total. Qed.
+Print Assumptions C04_fragment_bool_guard_is_all_any.
+
+(* non-vacuity: `pt != 0 and 1/pt < 2` protects the division on a jet with pt = 0; the other operand order faults.
+   Both through the emitted job (Count of the jets passing the guard). *)
+From FV Require Import Model.FragQuery.
+Definition jets4 : collref := {| c_base := "jets"; c_ctype := "const xAOD::JetContainer*"; c_bank := "aj"; c_arrow := true |}.
+Definition p_nonzero : pred := {| p_neg := false; p_op := "!="; p_l := PMeth "pt"; p_r := PInt 0 |}.
+Definition p_inv : pred := {| p_neg := false; p_op := "<"; p_l := PDiv (PInt 1) (PMeth "pt"); p_r := PInt 2 |}.
+Definition q_guarded (first second : pred) : query :=
+  {| q_filter := None;
+     q_body := QRow [("n", ColScalar (ECount {| k_coll := jets4; k_guard := GBool true first [second]; k_agg := ACount |}))] |}.
+Definition ev_zero : event :=
+  {| ev_colls := [(("const xAOD::JetContainer*", "aj"), VVec [VObj 0; VObj 1])];
+     ev_meths := [((0, "pt"), VDbl (QArith_base.inject_Z 0)); ((1, "pt"), VDbl (QArith_base.inject_Z 4))] |}.
+Definition atlas4 : FragTranslate.backend :=
+  {| b_idiom := "atlas"; b_tree := "atlas_xaod_tree"; b_fill := "tree(""atlas_xaod_tree"")->Fill();" |}.
+Example C04_guard_protects :
+  run_job (prog_q atlas4 (q_guarded p_nonzero p_inv) 1) [ev_zero] = JDone [[[VInt 1]]] /\
+  run_job (prog_q atlas4 (q_guarded p_inv p_nonzero) 1) [ev_zero] = JAbort [] 0 FDivZero.
+Proof. vm_compute. split; reflexivity. Qed.
